@@ -130,6 +130,27 @@ CLAIMED = {
             "cores in order; norm uses the differentiable Gram chain whenever any core is tracked.",
             "assumes autograd's chain rule for torch primitives; numerical agreement with finite differences not decided",
             "DESIGN.md section 4 C15"),
+    "C12": ("contraction-structure type checking (E5) of the local operator in every formulation, layout-agnostic adjointness of the "
+            "interface recursions, statement-level shape typing of the sweep bodies by unification over independent rank families "
+            "(IFACE-TYPE), constructor-field rule (DEF-ATTR), effect analysis, definite assignment, name resolution",
+            "Clause level: decides that every local problem the AMEn sweeps assemble is the Galerkin projection of A x = b: the einsum "
+            "local product, the tensordot matvec with and without preconditioner, the fused preconditioned contractions, apply_prec "
+            "and the Jacobi blocks denote one operator; the interface recursions are adjoint to it; every tensor statement of both "
+            "sweeps (local products, right-hand sides, dense local matrix and its flattening orders, residual forms, interface "
+            "updates) types consistently at positions k / k+1; the operator object has every field it reads in every "
+            "(preconditioner x band) configuration; operands and initial guess are never written.",
+            "the residual bound, convergence, conditioning and seed independence are runtime quantities and NOT decided; real operands; "
+            "band-diagonal products not modelled; trunc_norm='fro' is outside the quantifier",
+            "DESIGN.md section 4 C12"),
+    "C13": ("who-is-the-divisor routing rule at every amen_divide call site, contraction-structure type checking (E5) of the diagonal "
+            "local operator and its interfaces, statement-level shape typing of amen_divide's sweeps (IFACE-TYPE), constructor-field rule, "
+            "effect analysis",
+            "Clause level: decides that `x / y`, `s / y` and elementwise_divide(x, y) hand the divisor to the operator slot and the "
+            "numerator to the right-hand-side slot of the diagonal AMEn solve; that the diagonal local operator has one meaning in "
+            "every formulation; that all sweep statements type consistently; that division by a scalar is exact as a chain (C03 "
+            "scenario) and no operand is written.",
+            "accuracy of the quotient (inherits AMEn's convergence behaviour) is NOT decided",
+            "DESIGN.md section 4 C13"),
 }
 
 NOT_APPLICABLE = {
